@@ -189,8 +189,14 @@ class RemoteFamily(common.Family):
                       'k': rng.randrange(0, 4), 'i': rng.randrange(0, 4),
                       'x': rng.randrange(0, 5)})
         else:
-          ops.append({'op': kind, 'n': rng.randrange(0, 5),
-                      'buf': rng.choice([0, 1, 2])})
+          op = {'op': kind, 'n': rng.randrange(0, 5),
+                'buf': rng.choice([0, 1, 2])}
+          if kind == 'queue' and op['n'] and rng.random() < 0.3:
+            # the producer of the served queue pauses before element `stall_at`
+            # for longer than any call deadline, then goes on
+            op['stall_at'] = rng.randrange(0, op['n'])
+            op['stall'] = rng.choice([8.0, 30.0])
+          ops.append(op)
       clients.append(ops)
     fault = rng.choice(['none', 'none', 'stop', 'shutdown_rpc', 'kill'])
     return {
@@ -313,8 +319,15 @@ class RemoteFamily(common.Family):
           return ['exc', got, type(e).__name__, str(e)]
       if kind == 'queue':
         q = iter_utils.IteratorQueue(op['buf'], name='rq')
+        def feed_src():
+          for i in range(op['n']):
+            if op.get('stall_at') == i:
+              sim.count('fault:producer_stall')
+              _time.sleep(op['stall'])
+            yield i
+
         t = threading.Thread(target=q.enqueue_from_iterator,
-                             args=(iter(range(op['n'])),), name='rq-feed')
+                             args=(feed_src(),), name='rq-feed')
         t.start()
         rq = courier_utils.RemoteIteratorQueue.new(q, server_addr=client)
         got = []
@@ -443,9 +456,13 @@ class RemoteFamily(common.Family):
             if got[2] != ['exc', 'StopIteration'] and not retriable(got[2]):
               res.append(v('iteration', f'{kind}:exhaustion-once:{fault}',
                            f'next() after exhaustion gave {got[2]}'))
-          elif fault == 'none':
+          elif fault == 'none' and not (
+              op.get('stall') and 0 < cfg['call_timeout'] < op['stall']):
             res.append(v('iteration', f'{kind}:error:{fault}', f'{got}'))
           else:
+            # under shutdown, or when the producer pauses for longer than the
+            # call deadline: a prefix of the right elements, then a retriable
+            # error (never a gap, never a silent end)
             # under shutdown: a prefix of the right elements, then a retriable
             # error
             g = got[1] if got[0] == 'exc' else []
@@ -453,7 +470,12 @@ class RemoteFamily(common.Family):
               res.append(v('iteration', f'{kind}:elements:{fault}',
                            f'got {g}, expected a prefix of {exp}'))
             name = got[2] if got[0] == 'exc' else got[1]
-            if name not in RETRIABLE:
+            if fault == 'none':
+              fault_ = 'producer-stall'
+              if name not in RETRIABLE:
+                res.append(v('iteration', f'{kind}:not-retriable:{name}:{fault_}',
+                             f'{got}'))
+            elif name not in RETRIABLE:
               res.append(v('shutdown', f'{kind}:not-retriable:{name}:{fault}',
                            f'{got}'))
     if cfg['shared_iter']:
